@@ -351,6 +351,16 @@ class ParamEffects(object):
             for q2 in self.by_name.get(f.id, []):
                 if q2[1] is None:
                     out.append(q2)
+        elif isinstance(f, ast.Subscript) and isinstance(f.value, ast.Name) and c is not None:
+            # dispatch through a local dict of bound methods: D = {K: self.m1, ...}; D[k](args)
+            for n in walk_no_nested(fn):
+                if isinstance(n, ast.Assign) and len(n.targets) == 1 and isinstance(n.targets[0], ast.Name) and n.targets[0].id == f.value.id \
+                        and isinstance(n.value, ast.Dict):
+                    for v in n.value.values:
+                        if isinstance(v, ast.Attribute) and isinstance(v.value, ast.Name) and v.value.id in ('self', 'cls'):
+                            for q2 in self.by_name.get(v.attr, []):
+                                if q2[1] is not None and q2[0] == m.name:
+                                    out.append(q2)
         elif isinstance(f, ast.Attribute):
             if isinstance(f.value, ast.Name) and f.value.id in ('self', 'cls') and c is not None:
                 for q2 in self.by_name.get(f.attr, []):
